@@ -84,19 +84,60 @@ Proof. exact reach_inv. Qed.
 (* ---- two endpoints over a network that drops, duplicates and reorders (composed model) ----
    _partial: the statement characterises exactly when a genuine packet opens -- iff the receiver
    holds its generation (active; or next, when no update is in progress; or previous, while the
-   derivation timer of the last update is still armed = reordering within about one PTO).  What is
-   NOT derived from hypotheses on the schedule alone: (H1) that a packet delayed by less than
-   pto - granularity always finds the previous generation still retained, and (H2) that the peer
-   does not start the following update before this endpoint's derivation timer fired (RFC 9001
-   6.1/6.5 spacing; KeySet itself does not wait for an acknowledgement).  Outside ep_holds the
-   packet fails to open. *)
+   derivation timer of the last update is still armed = reordering within about one PTO).  (H1), that the
+   previous generation stays retained for the timer period whatever the schedule does, is derived
+   below (C15_old_generation_retained).  (H2), that the peer does not start the following update
+   before this endpoint's derivation timer fired, does NOT follow from the code and is refuted
+   below (C15_update_spacing_refuted): KeySet does not wait for an acknowledgement (RFC 9001 6.1).
+   Outside ep_holds the packet fails to open. *)
 Theorem C15_mutual_decryptability_partial : forall cl il win p ops e i pn g ph,
   let d := dsteps (duo_new cl il win p) ops in
   pick (sent d (negb e)) i = Some (pn, (g, ph)) ->
   is_ok (snd (decrypt_packet (ep d e) g ph pn (largest d e) (now d + pto d))) = ep_holds (ep d e) g.
 Proof. exact mutual_decryptability_partial. Qed.
 
+(* H1, derived from the schedule: after endpoint e rotated at time T (delivery i armed its timer),
+   whatever is sealed, delivered, forged or timed afterwards, every genuine packet of the previous
+   generation still opens as long as the clock is at most T + pto - granularity: reordering across a
+   key update is tolerated for the derivation-timer period (here: the configured PTO minus 1 ms) *)
+Theorem C15_old_generation_retained : forall cl il win p ops e i ops' j pn g ph,
+  let d0 := dsteps (duo_new cl il win p) ops in
+  let d1 := fst (dstep d0 (DDeliver e i)) in
+  let d2 := dsteps d1 ops' in
+  timer (ep d0 e) = None -> in_progress (ep d1 e) = true ->
+  now d2 + Gen_C15.granularity_us <= now d0 + pto d0 ->
+  pick (sent d2 (negb e)) j = Some (pn, (g, ph)) ->
+  g + 1 = act_gen (ep d1 e) ->
+  is_ok (snd (decrypt_packet (ep d2 e) g ph pn (largest d2 e) (now d2 + pto d2))) = true.
+Proof. exact old_generation_retained. Qed.
+
+(* H2 is refuted: the code lets an endpoint start the following update as soon as its own timer
+   fired, without an acknowledgement in the current phase (RFC 9001 6.1 MUST NOT, 6.5 SHOULD wait
+   3 PTO); with limit 4 / window 3 a generation-2 packet delivered in order with zero delay cannot
+   be opened by the peer whose timer (armed 100 us later) has not fired yet.  Replayed on two real
+   KeySets (duo case 4 40 3 1388 0 0 0 0 0 0 1 1 2 0 1 0 1 2 64 1 0 0 2 fa0 0 1 1 0 2 -> decrypt error). *)
+Theorem C15_update_spacing_refuted :
+  let ops := [DEnc false; DEnc false; DEnc false; DDeliver true 2; DEnc true; DEnc true;
+              DTime 100; DDeliver false 0; DTime 4000; DEnc true] in
+  let d := dsteps (duo_new 4 64 3 5000) ops in
+  pick (sent d true) 2 = Some (2, (2, false)) /\
+  act_gen (ep d false) = 1 /\ in_progress (ep d false) = true /\ in_progress (ep d true) = false /\
+  is_ok (snd (decrypt_packet (ep d false) 2 false 2 (largest d false) (now d + pto d))) = false.
+Proof. exact update_spacing_refuted. Qed.
+
+(* any number n of complete peer-driven key updates (also beyond 2^16, where the u16 event counter
+   wraps): every genuine packet opens, the endpoint ends on generation n with key phase n mod 2 and
+   no update pending; the generation reported by the last rotation is n mod 2^16 *)
+Theorem C15_survives_any_number_of_updates : forall cl il win n,
+  let r := N.iter n rot_cycle {| r_i := 1; r_s := ks_new cl il win; r_done := 0; r_opened := 0; r_last := 0 |} in
+  r_opened r = n /\ act_gen (r_s r) = n /\ phase (r_s r) = N.odd n /\ in_progress (r_s r) = false /\
+  r_last r = n mod 65536.
+Proof. exact rot_survives. Qed.
+
 (* ---- the executable judgements accept every run of the model, for every case ---- *)
+Theorem C15_rot_judge_model : forall c, rot_judge c (rot_run c) = true.
+Proof. exact rot_judge_run. Qed.
+
 Theorem C15_ks_judge_model : forall c, ks_judge c (ks_run c) = true.
 Proof. exact ks_judge_run. Qed.
 
@@ -127,5 +168,9 @@ Print Assumptions C15_integrity_limit_closes.
 Print Assumptions C15_generation_monotone.
 Print Assumptions C15_generation_structure.
 Print Assumptions C15_mutual_decryptability_partial.
+Print Assumptions C15_old_generation_retained.
+Print Assumptions C15_update_spacing_refuted.
+Print Assumptions C15_survives_any_number_of_updates.
+Print Assumptions C15_rot_judge_model.
 Print Assumptions C15_ks_judge_model.
 Print Assumptions C15_duo_judge_model.
